@@ -139,4 +139,12 @@ def completing (r : RT) : Ev → Bool
   | .rtEnd false => r.phase == .inRT
   | _ => false
 
+/-- A BODILESS response (http.NoBody: 204 / 304, the answer to a HEAD, `Content-Length: 0`, END_STREAM
+on the HTTP/2 HEADERS frame; or a reader whose first Read is EOF).  `TracingRoundTripper` wraps it
+like every other body (middleware.go: `resp.Body = newReader(…, cancel)`, no test of the body), so
+the response is in phase `body` when the caller gets it, and there is no data to read first: the
+caller's first touch of the body IS a finishing event — a Read returns EOF at once (`readEnd`), a
+Close is `close`. -/
+def touch (read : Bool) : Ev := if read then .readEnd else .close
+
 end ConfModel.WireAsync
